@@ -24,7 +24,9 @@ RULE = ("23 (start state, call) cases covering store_object (new / duplicate / e
         "store_metadata the previous version is served; bystanders (pid ref, retrieve bytes, listed exactly once, "
         "metadata) unchanged. distinct_nontrivial = distinct (case, site index, errno, persistence) runs in which "
         "the fault actually fired.")
-ASSUMPTIONS = ["existence probes (stat) are not fault sites (the platform reports their failure as 'absent')",
+ASSUMPTIONS = ["the probe intercepts every file-system call of the code under test: audited on every run against strace "
+               "(one canonical script; the sequence of mutating system calls on store paths must equal the probe's trace)",
+               "existence probes (stat) are not fault sites (the platform reports their failure as 'absent')",
                "a fault is an OSError raised in place of the system call; the call's side effect does not happen"]
 EXHAUSTIVE = {"quick": True, "thorough": True}
 SYMPTOMS = {"success-although-fault-free-call-fails", "success-reported-without-whole-effect", "raised-but-pid-bound",
@@ -42,7 +44,24 @@ def fault_shards(tier, seed):
 
 
 def shards(tier, seed):
-    return fault_shards(tier, seed)
+    return [("audit",)] + [("fault",) + a for a in fault_shards(tier, seed)]
+
+
+def run_audit_shard():
+    """The probe is the trusted base of the fault / crash / observation engines: audit it against strace."""
+    from ..audit import run_audit
+    res = ShardResult()
+    a = run_audit()
+    if a["status"] == "ok":
+        res.count("probe_audit_syscalls_matched", a["matched"])
+        res.notes.append(f"probe audit: {a['matched']} mutating system calls seen by strace on store paths, all present "
+                         f"in the probe's trace in the same order ({', '.join(a['kinds'])})")
+    elif a["status"] == "mismatch":
+        res.inconclusive.append("probe audit: strace saw a mutating system call on a store path that the probe did not "
+                                f"intercept (or vice versa): {a}")
+    else:
+        res.notes.append("probe audit skipped: " + str(a.get("detail")))
+    return res
 
 
 def min_required(tier):
@@ -133,8 +152,10 @@ def _after_both_refs(case, inj):
     return bool(to_pid and to_cid)
 
 
-def run_shard(case_idxs, tier, sub_seed):
-    return run_fault_shard(case_idxs, tier, sub_seed)
+def run_shard(kind, *args):
+    if kind == "audit":
+        return run_audit_shard()
+    return run_fault_shard(*args)
 
 
 def replay(witness, symptoms=None):
